@@ -10,6 +10,10 @@ def main(tier):
     runner.run(rep, 'VacancyMediated::hdf5-round-trip', V.w_history, [(cid, tier, SEED, 'C13') for cid in ids], 'onsager/OnsagerCalc.py::VacancyMediated.loadhdf5')
     n = len(catalogue.builders(tier, SEED))
     runner.run(rep, 'yaml-and-hdf5-round-trips', R.w_yaml_hdf5, [(i, tier, SEED) for i in range(n)], 'onsager')
+    # E1 (level P): the flatten / unflatten converters every HDF5 writer and reader goes through, for lists of any size
+    from vf.pyvc import driver
+    from contracts import flatten_c
+    for c in flatten_c.C13_CONTRACTS: driver.verify_function(c, rep, tier)
     from vf import extract
     for rel, q in (('onsager/OnsagerCalc.py', 'VacancyMediated.addhdf5'), ('onsager/OnsagerCalc.py', 'VacancyMediated.loadhdf5'), ('onsager/OnsagerCalc.py', 'vTKdict2arrays'),
                    ('onsager/OnsagerCalc.py', 'arrays2vTKdict'), ('onsager/GFcalc.py', 'GFCrystalcalc.addhdf5'), ('onsager/GFcalc.py', 'GFCrystalcalc.loadhdf5'),
@@ -20,7 +24,8 @@ def main(tier):
             f = extract.get(rel, q); rep.under_contract(rel + '::' + q, rel, f.l0, f.l1)
         except KeyError: pass
     rep.trust('h5py (in-memory core driver) and PyYAML store and return arrays / scalars unchanged')
-    rep.gaps += ['the planned inverse-pair lemmas for the flatten/unflatten converters (E1) are not built yet', 'catalogue calculators and crystals only']
+    rep.assume('E1: list elements are modelled as integers standing for object identities; python ints are mathematical; the rows of a list of lists are distinct objects')
+    rep.gaps += ['P covers doublelist2flatlistindex / flatlistindex2doublelist and their round trip only; the other converters (PSlist2array, vTKdict2arrays, the omega flattening inside addhdf5/loadhdf5) and the round trips of whole calculators are level B', 'catalogue calculators and crystals only for the B part']
     return finish(rep, 'exploration',
                   'Exact-equality contracts through real in-memory HDF5 files: a reloaded vacancy-mediated calculator (saved before and after cache population, and a second-generation reload) '
                   'gives bit-identical Lij results, caches and tags and supports makesupercells; star sets, vector star sets, GF calculators and Taylor expansions round-trip; '
